@@ -112,9 +112,9 @@ def stepLine (env : Env) (line : String) : Env × Option String :=
     -- the variant as written: attribute collection is part of the model (StrumModel/Collect.lean)
     match env[id]?, decodeRawVariant toks with
     | some d, some r =>
-      match collectVariant r with
-      | .ok v => (env.insert id { d with variants := d.variants ++ [v] }, none)
-      | .error _ => (env, some "collect-error")
+      match addVariantLine d r with
+      | some d' => (env.insert id d', none)
+      | none => (env, some "collect-error")
     | _, _ => (env, some "bad-variant")
   | "op" :: id :: args =>
     match env[id]? with
